@@ -181,13 +181,43 @@ def check_property(prop, tier, seed):
     t0 = time.time()
     P = U.PROPS[prop]
     unit_names = list(P["quick"]) + (list(P.get("thorough", [])) if tier == "thorough" else [])
-    results = []
-    for u in unit_names:
-        r = run_unit(u, tier)
-        results.append(r)
-        print("unit %-12s %-6s obligations=%d discharged=%d failures=%d undecided=%d (%.1fs)" % (
-            u, r["backend"], r["obligations"], r["discharged"], len(r["failures"]),
-            len(r["undecided"]), r["wall_s"]), flush=True)
+    # units are independent: Verus units run concurrently, Kani units serialise on the cargo lock
+    from concurrent.futures import ThreadPoolExecutor
+    with ThreadPoolExecutor(max_workers=4) as ex:
+        futs = [(u, ex.submit(run_unit, u, tier)) for u in unit_names]
+        results = []
+        for u, f in futs:
+            r = f.result()
+            results.append(r)
+            print("unit %-12s %-6s obligations=%d discharged=%d failures=%d undecided=%d (%.1fs)" % (
+                u, r["backend"], r["obligations"], r["discharged"], len(r["failures"]),
+                len(r["undecided"]), r["wall_s"]), flush=True)
+
+    # Witness production (not the deciding step): for units with a directed search, look for a
+    # concrete failing input when a Verus obligation failed (Verus gives no counterexample) or
+    # when the unit was undecided (lost anchor / unsupported construct).  Only a refutation that
+    # replays on the real code is trusted; finding nothing changes nothing.
+    for r in results:
+        spec = U.UNITS[r["unit"]]
+        need = [f for f in r["failures"] if not f.get("cex")]
+        if "search" in spec and (need or r["undecided"]):
+            rc, out = run_replay([spec["search"], str(seed)], timeout=900)
+            m = re.search(r"WITNESS (.*?) \| argv=(\S+)", out)
+            r.setdefault("search_log", []).append(out[-400:])
+            if m:
+                cex = {"argv": m.group(2).split(","), "found_by": "bounded directed search (%s)" % spec["search"],
+                       "what": m.group(1)}
+                if need:
+                    need[0]["cex"] = cex
+                else:
+                    r["failures"].append({
+                        "unit": r["unit"], "backend": "bounded-search", "where": spec["search"],
+                        "kind": "bounded directed search (stand-in: the deductive check of this unit was UNDECIDED)",
+                        "desc": "real code disagrees with the reference specification: " + m.group(1),
+                        "loc": "", "output": "UNDECIDED reasons: " + " ; ".join(r["undecided"]) + "\n" + out[-1500:],
+                        "cex": cex})
+                    r["undecided_resolved_by_search"] = list(r["undecided"])
+                    r["undecided"] = []
 
     known = load_known()
     os.makedirs(REPLAY_DIR, exist_ok=True)
